@@ -187,6 +187,40 @@ static void rs_point (const pt_t *p)
 		for (j = k; j < n; j++) free (mine[j]);
 		free (tab); free (mine);
 	}
+	/* encoder histories on ONE session: scattered / decreasing order, a symbol built twice into the buffer that still holds
+	 * its first value, a NULL slot after a buffer slot, a second increasing pass over used buffers */
+	if (n - k >= 1 && len <= 4200) {
+		int rej = 0, pass, q, nb = n - k;
+		of_session_t *s = open_ses (p->codec, p->m, k, n - k, 0, 0, len, OF_ENCODER, &rej);
+		if (s) {
+			void **tab = calloc ((size_t) n, sizeof (void *));
+			unsigned char **mine = calloc ((size_t) n, sizeof (void *));
+			for (i = 0; i < k; i++) tab[i] = src[i];
+			for (j = k; j < n; j++) { mine[j] = malloc ((size_t) len + 1); memset (mine[j], 0xA7, (size_t) len + 1); }
+			for (pass = 0; pass < 4; pass++)
+				for (q = 0; q < nb; q++) {
+					/* pass 0: decreasing, buffers; pass 1: stride order, same (now used) buffers; pass 2: increasing, NULL slots; pass 3: the first and last again, buffers */
+					int e = pass == 0 ? n - 1 - q : pass == 1 ? k + (q * 3 + 1) % nb : pass == 2 ? k + q : (q == 0 ? k : n - 1);
+					void *lib = NULL;
+					of_status_t st;
+					if (pass == 3 && q > 1) break;
+					tab[e] = pass == 2 ? NULL : mine[e];
+					snprintf (vf_slot (), VF_SLOT_LEN, "%s", g_case);
+					st = of_build_repair_symbol (s, tab, (UINT32) e);
+					vf_stat_add (st_trans, 1);
+					if (st != OF_STATUS_OK || !tab[e]) { snprintf (sig, sizeof sig, "codec=%s|call=build|kind=fails-in-history|pass=%d", cn, pass); viol ("C06", sig); break; }
+					if (pass == 2) lib = tab[e];
+					rsr_encode_symbol (m, k, G + (size_t) e * k, pristine, want, (size_t) len);
+					if (memcmp (tab[e], want, (size_t) len)) { snprintf (sig, sizeof sig, "codec=%s|call=build|kind=repair-differs-from-reference-generator|history-pass=%d", cn, pass); viol ("C06", sig); }
+					if (pass != 2 && mine[e][len] != 0xA7) { snprintf (sig, sizeof sig, "codec=%s|call=build|kind=wrote-outside-repair-buffer|history-pass=%d", cn, pass); viol ("C07", sig); viol ("C06", sig); mine[e][len] = 0xA7; }
+					for (i = 0; i < k; i++) if (tab[i] != src[i] || memcmp (src[i], pristine[i], (size_t) len)) { snprintf (sig, sizeof sig, "codec=%s|call=build|kind=source-buffer-or-table-modified", cn); viol ("C06", sig); viol ("C07", sig); memcpy (src[i], pristine[i], (size_t) len); tab[i] = src[i]; }
+					if (lib) { free (lib); tab[e] = mine[e]; }
+				}
+			of_release_codec_instance (s);
+			for (j = k; j < n; j++) free (mine[j]);
+			free (tab); free (mine);
+		}
+	}
 	/* decoder-session enc_matrix (codec 2): lose source 0, feed the reference codeword, finish */
 	if (p->codec == 2 && n - k >= 1) {
 		int rej;
@@ -331,6 +365,36 @@ static void ldpc_point (const pt_t *p)
 			of_release_codec_instance (s);
 			for (j = k; j < n; j++) { if (mode == 1 && tab[j]) free (tab[j]); free (mine[j]); }
 			free (tab); free (mine);
+		}
+		/* encoder histories on ONE session: increasing pass, every symbol rebuilt at once into its used buffer, then a
+		 * decreasing pass (tab[j-1] is present, as the staircase needs), then NULL slots: all equal to the first pass */
+		if (len <= 4200 && n <= 400 && first[k]) {
+			of_session_t *s = open_ses (3, 0, k, r, p->N1, p->seed, len, OF_ENCODER, &rej);
+			if (s) {
+				void **tab = calloc ((size_t) n, sizeof (void *));
+				unsigned char **mine = calloc ((size_t) n, sizeof (void *));
+				int pass, okh = 1;
+				for (i = 0; i < k; i++) tab[i] = src[i];
+				for (j = k; j < n; j++) { mine[j] = malloc ((size_t) len + 1); memset (mine[j], 0xA7, (size_t) len + 1); tab[j] = mine[j]; }
+				for (pass = 0; pass < 3 && okh; pass++)
+					for (j = (pass == 1 ? n - 1 : k); okh && (pass == 1 ? j >= k : j < n); j += (pass == 1 ? -1 : 1)) {
+						int rep, nrep = pass == 0 ? 2 : 1;
+						for (rep = 0; rep < nrep && okh; rep++) {
+							void *lib = NULL;
+							if (pass == 2) tab[j] = NULL;
+							if (of_build_repair_symbol (s, tab, (UINT32) j) != OF_STATUS_OK || !tab[j]) { snprintf (sig, sizeof sig, "codec=ldpc|call=build|kind=fails-in-history|pass=%d", pass); viol ("C06", sig); okh = 0; break; }
+							vf_stat_add (st_trans, 1);
+							if (pass == 2) lib = tab[j];
+							if (first[j] && memcmp (first[j], tab[j], (size_t) len)) { snprintf (sig, sizeof sig, "codec=ldpc|call=build|kind=rebuilt-symbol-differs|history-pass=%d|rep=%d", pass, rep); viol ("C06", sig); okh = 0; }
+							if (pass != 2 && mine[j][len] != 0xA7) { viol ("C07", "codec=ldpc|call=build|kind=wrote-outside-repair-buffer|history"); viol ("C06", "codec=ldpc|call=build|kind=wrote-outside-repair-buffer|history"); mine[j][len] = 0xA7; }
+							if (lib) { free (lib); tab[j] = mine[j]; }
+						}
+					}
+				for (i = 0; i < k; i++) if (memcmp (src[i], pri[i], (size_t) len)) { viol ("C06", "codec=ldpc|call=build|kind=source-buffer-or-table-modified"); viol ("C07", "codec=ldpc|call=build|kind=source-buffer-or-table-modified"); memcpy (src[i], pri[i], (size_t) len); }
+				of_release_codec_instance (s);
+				for (j = k; j < n; j++) free (mine[j]);
+				free (tab); free (mine);
+			}
 		}
 		for (j = 0; j < n; j++) free (first[j]);
 		for (i = 0; i < k; i++) { free (srcblk[i]); free (pri[i]); }
